@@ -571,3 +571,27 @@ Definition rsx_monN (W : N) (m i o : N) : option (N * bool) :=
   let x' := rsx_step x w e in
   Some (packb W (rs_nums (x_p x') ++ [b2n (x_new x'); x_pkt x']),
         o =? b2n (x_new x) + 2 * (b2n (rsx_bad x) + 2 * (b2n (rsx_badseq x e) + 2 * x_pkt x))).
+
+(* ------------------------------------------------------------------------------------------ *)
+(* 10. Histories (for the statement "each accepted header is offered exactly once and in order")   *)
+Section Hist.
+  Variables n sw : N.
+  Variable down : bool.
+  (* a run the monitor accepts without the partner ever breaking its rules: final state, headers accepted (in order),
+     headers handed to the protocol layer (in order) *)
+  Fixpoint sp_run (g : sp_state) (ios : list (cin * cout)) : option (sp_state * list N * list N) :=
+    match ios with
+    | [] => Some (g, [], [])
+    | (i, o) :: t =>
+        match sp_mon n sw down g i o with
+        | Some (g', true) =>
+            match sp_run g' t with
+            | Some (gf, a, d) => Some (gf, (if sp_accept g i then [i_pkt i] else []) ++ a,
+                                          (if o_qvalid o && i_qrdy i then [o_qhdr o] else []) ++ d)
+            | None => None
+            end
+        | _ => None
+        end
+    end.
+
+End Hist.
